@@ -277,3 +277,34 @@ Proof.
     apply is_lim_seq_plus'; apply is_lim_seq_plus'; apply is_lim_seq_mult'; try assumption; apply is_lim_seq_const.
 Qed.
 End GeneralLimit.
+
+(* ---- at the level of the code's entry point: with the true values e^alpha, cosh alpha, sinh alpha of the exponent alpha = u + i v,
+   every amplitude apply_exp returns is the sum of the operator exponential series ---- *)
+From QI Require Import Proofs.C04a Proofs.C08 Proofs.C09b.
+Local Open Scope R_scope.
+Definition cexp' (u v : R) : RC := (exp u * cos v, exp u * sin v).
+Lemma cexp_cosh_sinh u v : cexp' u v = cadd rops (ccosh u v) (csinh u v).
+Proof.
+  unfold cexp', ccosh, csinh, cadd, cosh, sinh. cbn [fst snd sadd rops]. apply injective_projections; cbn [fst snd]; field.
+Qed.
+Theorem apply_exp_is_series par n (P : pstring (T:=R)) (u v : R) (vec0 : list RC) :
+  NoDup (map fst (pops P)) -> keys_ok n (pops P) -> length vec0 = N.to_nat (2 ^ n) ->
+  exists w, ps_apply_exp_with rops par P (cexp' u v) (ccosh u v) (csinh u v) (mkState n vec0) = Ok (mkState n w) /\ length w = N.to_nat (2 ^ n) /\
+    forall x, (x < 2 ^ n)%N ->
+      Un_cv (fun N0 => fst (series_op rops invfact (u, v) (pops P) N0 (get (c0 rops) vec0) x)) (fst (get (c0 rops) w x)) /\
+      Un_cv (fun N0 => snd (series_op rops invfact (u, v) (pops P) N0 (get (c0 rops) vec0) x)) (snd (get (c0 rops) w x)).
+Proof.
+  intros Hnd Hk Hl. rewrite (ps_apply_exp_spec rops rops_ring par n P _ _ _ vec0 Hnd Hk Hl).
+  eexists. split; [reflexivity|]. split; [destruct (pops P); apply map_R_length|].
+  intros x Hx. pose proof (general_series_converges (pops P) Hnd u v (get (c0 rops) vec0) x) as G. unfold gpartial, glimit in G.
+  assert (E : get (c0 rops) (match pops P with
+                 | [] => map (fun k => cmul rops (get (c0 rops) vec0 k) (cexp' u v)) (Nrange (2 ^ n))
+                 | _ => map (fun k => cadd rops (cmul rops (get (c0 rops) vec0 k) (ccosh u v)) (cmul rops (apply_ops_f rops (pops P) (get (c0 rops) vec0) k) (csinh u v))) (Nrange (2 ^ n)) end) x
+              = expf rops (ccosh u v) (csinh u v) (pops P) (get (c0 rops) vec0) x).
+  { destruct (pops P) as [|o r] eqn:E0; rewrite (get_map_Nrange rops) by exact Hx; unfold expf.
+    - rewrite cexp_cosh_sinh. cbn [apply_ops_f]. destruct (get (c0 rops) vec0 x) as [p q], (ccosh u v) as [a b], (csinh u v) as [c d].
+      unfold cmul, cadd. cbn [fst snd smul sadd ssub rops]. apply injective_projections; cbn [fst snd]; ring.
+    - destruct (get (c0 rops) vec0 x) as [p q], (apply_ops_f rops (o :: r) (get (c0 rops) vec0) x) as [p' q'], (ccosh u v) as [a b], (csinh u v) as [c d].
+      unfold cmul, cadd. cbn [fst snd smul sadd ssub rops]. apply injective_projections; cbn [fst snd]; ring. }
+  rewrite E. exact G.
+Qed.
